@@ -173,7 +173,12 @@ def rand_text(rng, stringify_defined):
         return text("comment-line", False, [Id(rng.choice(["M1", "a"])), WS, {"k": "lc", "s": rng.choice(["// M1", "// \"", "// /* x", "//#define M2 1"])}])
     if ch < 0.85:
         return text("comment-block", False, [Id("a"), WS, {"k": "bc", "s": rng.choice(["/* M1 */", "/* \" */", "/*//*/", "/* #define M1 9 */"])}, WS, Id(rng.choice(["M1", "M2", "b"]))])
-    if ch < 0.90:
+    if ch < 0.88:
+        # a string directly behind a block comment (the comment is removed, the string stays as it is)
+        glue = rng.choice([[], [WS]])
+        return text("comment-block-then-string", False, [{"k": "bc", "s": rng.choice(["/* c */", "/* \" */", "/* M1 */"])}] + glue +
+                    [Str(rng.choice(["a // b", "M1", "/* x", "x */ y"])), WS, Id(rng.choice(["M1", "b"]))])
+    if ch < 0.92:
         return {"k": "text", "tag": "comment-block-multiline", "rich": False, "join": "bc", "segs": [[Id("a"), WS], [WS, Id(rng.choice(["M1", "b"]))]]}
     if ch < 0.95:
         w = rng.choice(["M1", "M2", "foo"])
